@@ -116,6 +116,7 @@ func TestC16(t *testing.T) {
 		Level: "exploration",
 		Rule: "rapid draws histories (1-20 transactions, 1-3 operations, ~45% in a system mutate context; a third of the ordinary ones first derive and discard a system context from their own context) of create (IsSystem true/false), update and patch (payloads that also flip IsSystem, a quarter with the Migrate flag) and delete over ids s1..s4 on a store with the system-entity enforcement constraint, plus a second protected store whose entities reference the first through a cascade-delete foreign key. " +
 			"The model fixes the flag at creation: an operation touching a system entity (or creating one) from an ordinary context must fail and leave the dump unchanged, every other operation must succeed, and after every transaction the stored flag of every entity equals its creation flag. " +
+			"Also generated: system contexts handed to Db.Update / Db.Batch from outside, delete-where over a non-unique field, a child store over the protected store, the last operation issued from a pre-commit action. " +
 			"Non-trivial history: a refusal followed by a committed transaction, or an update that tries to flip the flag. Distinct by hash of the history JSON.",
 		Gen: genC16, Run: runC16,
 		QuickChecks: 1200, ThoroughFactor: 10,
